@@ -134,7 +134,7 @@ func vp04Connect(kind int, mgr *vpManager, must bool) (streams.Connection, error
 		err := u.Connect(mgr, must)
 		return u.Connection, err, nil
 	case 2, 3:
-		vpE.carrier = &vpCarrier{in: vpE.script}
+		vpE.carrier = &vpCarrier{in: vpE.script, silent: vpE.silent}
 		u := &InputOutput{Address: a, Input: vp04Rc{vpE.carrier}, Output: vp04Rc{vpE.carrier}}
 		err := u.Connect(mgr, must)
 		return u.Connection, err, nil
@@ -142,7 +142,7 @@ func vp04Connect(kind int, mgr *vpManager, must bool) (streams.Connection, error
 		u := &Packet{Address: a}
 		err := u.ConnectPacket(mgr, must, func(remote net.Addr, b kcp.BlockCrypt) (net.Conn, error) {
 			block = &b
-			vpE.carrier = &vpCarrier{in: vpE.script}
+			vpE.carrier = &vpCarrier{in: vpE.script, silent: vpE.silent}
 			return vpE.carrier, nil
 		})
 		return u.Connection, err, block
